@@ -11,6 +11,10 @@ for iters, tiers, tl in ((2, ("quick", "thorough"), 600), (3, ("quick", "thoroug
             time_limit_s=tl, max_paths=400000,
             bounds="all chunk sizes in [1,2^32), all start blocks < 2^40, every tip > last seen at each poll, every finalized pointer (or one failed call), "
                    "range queries answering 0..2 blocks with logs; Skolem block x with watched logs; integer encoding with explicit wrap-around"))
+OBLIGATIONS.append(dict(
+    name="C05.d driver handleNewBlock: tracked before processed (non-finalized), processed successfully exactly once after transient failures, cancelled on ErrInconsistentState",
+    harness=S + "ZZVerif_C05_Driver", reach=["tracked", "inconsistent"],
+    bounds="0..2 transient tracker failures, 0..2 transient store failures, inconsistent or not, finalized or not, any block number and hash"))
 ASSUMPTIONS = [
     "the syncer starts at most one block beyond the tip the node reports first, and the reported tip never decreases (without this the loop can move its "
     "start block backwards: with start > tip+1 a 'safe zone' iteration reports the tip as processed and continues from tip+1 < start)",
